@@ -626,9 +626,11 @@ func (ctx *RequestContext) File(filepath string) {
 }
 
 func (ctx *RequestContext) FileFromFS(filepath string, fs *FS) {
+	// (the original path: SetPath decodes its argument, restoring the decoded path
+	// would decode it a second time)
 	defer func(old string) {
 		ctx.Request.URI().SetPath(old)
-	}(string(ctx.Request.URI().Path()))
+	}(string(ctx.Request.URI().PathOriginal()))
 
 	ctx.Request.URI().SetPath(filepath)
 
